@@ -217,9 +217,10 @@ fn floor_boundary(s: &str, max: usize) -> usize {
 }
 
 pub fn gen_coll(rng: &mut Rng, cfg: &G1Cfg, depth: usize) -> MVal {
-    let n = match rng.below(10) {
-        0 => 0,
-        1..=5 => rng.range(1, 2),
+    let n = match rng.below(100) {
+        0..=9 => 0,
+        10..=59 => rng.range(1, 2),
+        99 if depth >= 1 => rng.range(100, 300), // wide collection
         _ => rng.range(1, 5),
     };
     let mut m = BTreeMap::new();
@@ -230,7 +231,7 @@ pub fn gen_coll(rng: &mut Rng, cfg: &G1Cfg, depth: usize) -> MVal {
             let mm = &m;
             gen_name(rng, false, &|s: &str| mm.contains_key(s))
         };
-        let v = gen_value(rng, cfg, depth.saturating_sub(1), true);
+        let v = if n > 12 { gen_scalar(rng, &G1Cfg { big: false, ..cfg.clone() }, true) } else { gen_value(rng, cfg, depth.saturating_sub(1), true) };
         m.insert(name, v);
     }
     MVal::Coll(m)
@@ -242,17 +243,21 @@ pub fn gen_value(rng: &mut Rng, cfg: &G1Cfg, depth: usize, in_coll: bool) -> MVa
         0..=5 => gen_scalar(rng, cfg, in_coll),
         6 | 7 => {
             // set of >= 2 non-set elements, homogeneous or mixed
-            let n = match rng.below(8) {
-                0 => rng.range(5, 12),
+            let n = match rng.below(64) {
+                0 if depth <= 1 => rng.range(200, 700), // wide set (top levels only)
+                1..=8 => rng.range(5, 12),
                 _ => rng.range(2, 4),
             };
             let homogeneous = rng.chance(1, 2);
             let mut v = Vec::with_capacity(n);
-            let first = if depth > 0 && rng.chance(1, 4) { gen_coll(rng, cfg, depth) } else { gen_scalar(rng, cfg, in_coll) };
+            // wide sets hold small scalars only (no blow-up through nesting)
+            let wide = n > 12;
+            let small = G1Cfg { big: false, ..cfg.clone() };
+            let first = if !wide && depth > 0 && rng.chance(1, 4) { gen_coll(rng, cfg, depth) } else { gen_scalar(rng, if wide { &small } else { cfg }, in_coll) };
             v.push(first);
             let mut retries = 0;
             while v.len() < n {
-                let e = if depth > 0 && rng.chance(1, 5) { gen_coll(rng, cfg, depth) } else { gen_scalar(rng, cfg, in_coll) };
+                let e = if !wide && depth > 0 && rng.chance(1, 5) { gen_coll(rng, cfg, depth) } else { gen_scalar(rng, if wide { &small } else { cfg }, in_coll) };
                 if homogeneous && e.kind() != v[0].kind() && retries < 40 {
                     // retry a few times for a same-kind element (bounded: a byte-driven rng may keep saying "retry")
                     retries += 1;
@@ -323,9 +328,10 @@ pub fn gen_model(rng: &mut Rng, cfg: &G1Cfg) -> Model {
     let mut big_left = if cfg.big { 2 } else { 0 };
     for gi in 0..ngroups {
         let tag = if gi == 0 { 1 } else { *rng.pick(&[1u8, 2, 4, 5, 2, 4]) };
-        let nattrs = match rng.below(10) {
-            0 => 0,
-            1..=6 => rng.range(1, 3),
+        let nattrs = match rng.below(200) {
+            0..=19 => 0,
+            20..=139 => rng.range(1, 3),
+            199 => rng.range(120, 400), // a group with hundreds of attributes
             _ => rng.range(1, cfg.max_attrs.max(1)),
         };
         let mut attrs: BTreeMap<String, MVal> = BTreeMap::new();
@@ -343,7 +349,7 @@ pub fn gen_model(rng: &mut Rng, cfg: &G1Cfg) -> Model {
                 0..=5 => rng.range(0, 2),
                 _ => rng.range(0, cfg.max_depth),
             };
-            let v = gen_value(rng, &c, depth, false);
+            let v = if nattrs > 20 { gen_scalar(rng, &G1Cfg { big: false, ..c.clone() }, false) } else { gen_value(rng, &c, depth, false) };
             attrs.insert(name, v);
         }
         groups.push(MGroup { tag, attrs });
@@ -663,14 +669,15 @@ fn wire_scalar(rng: &mut Rng, in_coll: bool, big: bool) -> WVal {
 }
 
 fn wire_values(rng: &mut Rng, depth: usize, in_coll: bool, big: bool) -> Vec<WVal> {
-    let n = match rng.below(10) {
-        0..=5 => 1,
-        6..=8 => rng.range(2, 4),
+    let n = match rng.below(100) {
+        0..=59 => 1,
+        60..=89 => rng.range(2, 4),
+        99 if !in_coll => rng.range(100, 400), // wide set of scalars
         _ => rng.range(2, 9),
     };
     (0..n)
         .map(|_| {
-            if depth > 0 && rng.chance(1, 4) {
+            if n <= 12 && depth > 0 && rng.chance(1, 4) {
                 wire_coll(rng, depth - 1, big)
             } else {
                 wire_scalar(rng, in_coll, big)
